@@ -9,8 +9,8 @@ props = open("/verif/spec/Props.tla").read()
 trace = open("/verif/spec/TraceSim.tla").read()
 names = set(re.findall(r'"(C\d\d\.[A-Za-z]+)"', props + trace))
 rows = []
-extra_batches = {"C01": "apibatch", "C02": "apibatch + Apalache ClusterPools", "C09": "apibatch", "C19": "apibatch",
-                 "C07": "bufapibatch", "C18": "bufapibatch", "C10": "hashpairs (TraceEq)", "C11": "segpairs (TraceEq) + interrupted traces",
+extra_batches = {"C01": "simbatch + apibatch", "C02": "simbatch + apibatch (+ Apalache ClusterPools, design level)", "C09": "simbatch + apibatch", "C19": "simbatch + apibatch",
+                 "C07": "simbatch + bufapibatch", "C18": "bufapibatch", "C10": "hashpairs (TraceEq)", "C11": "segpairs (TraceEq) + interrupted traces",
                  "C14": "Pure records (plan)", "C16": "Pure records (config)", "C15": "simbatch + Pure records (delay)",
                  "C06": "simbatch + Pure records (runtime, monotonicity grid)"}
 mc_extra = {"C01": "MC_ClusterAPI", "C02": "MC_ClusterAPI", "C09": "MC_ClusterAPI", "C19": "MC_ClusterAPI", "C07": "MC_Buffer",
